@@ -7,6 +7,7 @@ package slotsupervisor
 import (
 	"errors"
 	"fmt"
+	"net"
 	"reflect"
 	"sort"
 	"strings"
@@ -17,6 +18,9 @@ import (
 	"github.com/alibaba/RedisShake/pkg/libs/log"
 	"github.com/alibaba/RedisShake/redis-shake/dbSync/slot"
 	"github.com/alibaba/RedisShake/verifrt/ev"
+	"github.com/alibaba/RedisShake/verifrt/hook"
+	"github.com/alibaba/RedisShake/verifrt/memconn"
+	"github.com/alibaba/RedisShake/verifrt/msource"
 	"github.com/alibaba/RedisShake/verifrt/seqx"
 	redigo "github.com/garyburd/redigo/redis"
 )
@@ -210,4 +214,121 @@ func TestVerif_C20(t *testing.T) {
 	ev.Eval(n)
 	ev.Trace(n)
 	ev.Trans(trans)
+}
+
+// c20fRun: re-discovery through the real connection factory (dial, AUTH, INFO replication over
+// a connection) against model nodes. The promoted node answers AUTH in one of the ways real
+// servers do; whatever it answers, a node that reports role:master must be found.
+type c20fCase struct {
+	Password   bool   `json:"password_configured"`
+	AuthReply  string `json:"auth_reply_of_new_master"`
+	MasterNode int    `json:"master_node"` // which of the three nodes reports role:master
+}
+
+var c20fAuthReplies = []string{"", "+OK",
+	"-ERR Client sent AUTH, but no password is set",
+	"-ERR AUTH <password> called without any password configured for the default user. Are you sure your configuration is correct?",
+	"-WRONGPASS invalid username-password pair or user is disabled.",
+	"-ERR invalid password"}
+
+func c20fRun(t *testing.T, c c20fCase) (kind, what string) {
+	names := []string{"10.0.3.1:6379", "10.0.3.2:6379", "10.0.3.3:6379"}
+	pw := ""
+	if c.Password {
+		pw = "pw"
+	}
+	node := slot.SyncNode{Id: 1, Source: names[0], SourcePassword: pw, Slaves: append([]string{}, names[1:]...), SlotLeftBoundary: 0, SlotRightBoundary: 100}
+	defer hook.SetDialHook(nil)
+	var res *slot.SyncNode
+	var err error
+	func() {
+		defer func() {
+			if x := recover(); x != nil && !strings.Contains(fmt.Sprint(x), "blocked goroutines remain") {
+				kind, what = "harness-bubble", fmt.Sprint(x)
+			}
+		}()
+		synctest.Test(t, func(t *testing.T) {
+			masters := map[string]*msource.Master{}
+			for i, n := range names {
+				m := msource.New()
+				m.Password = pw
+				m.Role = "slave"
+				if i == c.MasterNode {
+					m.Role = "master"
+					m.AuthReply = c.AuthReply
+				}
+				masters[n] = m
+			}
+			var conns []*memconn.Conn
+			hook.SetDialHook(func(network, addr string) (net.Conn, error, bool) {
+				cc, sc := memconn.Pair(addr)
+				conns = append(conns, sc)
+				go masters[addr].Serve(sc)
+				return cc, nil, true
+			})
+			res, err = New(node).GetSlotState()
+			for _, sc := range conns {
+				sc.Cut()
+			}
+			synctest.Wait()
+		})
+	}()
+	if kind != "" {
+		return
+	}
+	// a server that rejects AUTH outright (wrong password) does not let INFO through: not finding it is correct
+	rejects := strings.HasPrefix(c.AuthReply, "-WRONGPASS") || c.AuthReply == "-ERR invalid password"
+	switch {
+	case rejects:
+		return "", ""
+	case err != nil || res == nil:
+		return "master-not-found", fmt.Sprintf("node %s reports role:master (its AUTH answer: %q) but re-discovery fails: %v", names[c.MasterNode], c.AuthReply, err)
+	case res.Source != names[c.MasterNode]:
+		return "non-master-chosen", fmt.Sprintf("chosen source %s, the master is %s", res.Source, names[c.MasterNode])
+	}
+	return "", ""
+}
+
+func TestVerif_C20F(t *testing.T) {
+	defer ev.Flush("C20")
+	log.SetLevel(log.LEVEL_NONE)
+	if ev.ReplayFile() != "" {
+		var c c20fCase
+		if err := ev.LoadReplay(&c); err != nil {
+			t.Fatal(err)
+		}
+		if c.AuthReply == "" && !c.Password && c.MasterNode == 0 {
+			return
+		}
+		k, w := c20fRun(t, c)
+		t.Logf("replay %+v -> %s %s", c, k, w)
+		if k != "" {
+			ev.Violate("C20|real-factory|"+k, w, c)
+		}
+		return
+	}
+	si, _ := ev.ShardInfo()
+	if si != 0 {
+		return
+	}
+	var n int64
+	for _, pwc := range []bool{false, true} {
+		for _, ar := range c20fAuthReplies {
+			for mn := 0; mn < 3; mn++ {
+				c := c20fCase{pwc, ar, mn}
+				k, w := c20fRun(t, c)
+				n++
+				h := ev.HashS(fmt.Sprint(c))
+				ev.State(h)
+				ev.Nontrivial(h)
+				ev.Outcome("real-factory:" + k)
+				if k != "" {
+					ev.Violate("C20|real-factory|"+k, fmt.Sprintf("%s (password configured: %v)", w, pwc), c)
+				}
+			}
+		}
+	}
+	ev.Eval(n)
+	ev.Trace(n)
+	ev.Trans(n * 3)
 }
